@@ -113,6 +113,9 @@ pub struct Profile {
     pub negative_costs: bool,
     /// share of cases (percent) built with the builder's own key builder, coster and validator
     pub defaults_pct: u32,
+    /// cases per 10 000 in which the first clear() / wait() finds the processor busy elsewhere for
+    /// 1.25 s of real time (sync flavour)
+    pub patience_per_10k: u32,
     pub big_advances: bool,
     /// weight of E2 interposition ops (schedule mode only)
     pub interpose: u32,
@@ -144,6 +147,7 @@ impl Default for Profile {
             negative_max: false,
             negative_costs: false,
             defaults_pct: 12,
+            patience_per_10k: 0,
             big_advances: true,
             interpose: 0,
             interpose_clear_only: false,
@@ -249,6 +253,7 @@ pub fn config_strategy(p: &Profile) -> BoxedStrategy<Config> {
             };
             let start = prop_oneof![Just(0i64), Just(1i64), Just(NS - 1), Just(500_000_000i64), 0i64..NS];
             let defaults = p.layout != Layout::Collide && (r / 31) % 100 < p.defaults_pct;
+            let patience = p.patience_per_10k;
             (layout_keys(p.layout, n), max_cost, tick, start).prop_map(move |(keys, max_cost, tick, start_ns)| {
                 let (keys, val) = if defaults {
                     use stretto::KeyBuilder;
@@ -272,6 +277,7 @@ pub fn config_strategy(p: &Profile) -> BoxedStrategy<Config> {
                     tick,
                     order: ((r / 1013) % 10) as u8,
                     defaults,
+                    patience_ms: if flavour == Flavour::Sync && (r / 17) % 10_000 < patience { 1250 } else { 0 },
                 }
             })
         })
